@@ -233,11 +233,13 @@ func ZZ_C02_buildIPMap_order() {
 // possibly bound.  All map iteration orders inside assignIPFromLocalPool.
 // zz:repeat 64
 func ZZ_C02_assign_2eni_1pod() { zzC02(2, 1, 1, 1, 1) }
+
 // zz:repeat 64
 func ZZ_C02_assign_1eni_2pods() {
 	// dual-stack with two competing pods is thorough-only (70k paths per shard)
 	zzC02Body(1, 2, 1, 2, 1, zz.Tier() == 0)
 }
+
 // zz:repeat 64
 func ZZ_C02_assign_2eni_2pods() {
 	if zz.Tier() == 0 {
